@@ -51,7 +51,7 @@ PhBig   == IF Variant = "L_short"
            ELSE BigPhase(phi, M)
 NB == Mul3(N, M)
 
-Init == /\ << N, M >> \in Pairs
+Init == /\ \E pr \in Pairs : N = pr[1] /\ M = pr[2]
         /\ phi \in { << u1, u2, u3 >> : u1 \in PhaseChoices(N[1], M[1]), u2 \in PhaseChoices(N[2], M[2]),
                                         u3 \in PhaseChoices(N[3], M[3]) }
         /\ th \in IF Variant = "L_short"
